@@ -21,6 +21,7 @@ import (
 	"fmt"
 	"reflect"
 	"regexp"
+	"sort"
 	"time"
 	"unicode"
 	"unicode/utf8"
@@ -303,18 +304,39 @@ func normalizeMapInto(cfg *Config, opts *options, from reflect.Value) Error {
 		return raiseKeyInvalidTypeMerge(cfg, from.Type())
 	}
 
-	for _, k := range from.MapKeys() {
-		k = chaseValueInterfaces(k)
-		if k.Kind() != reflect.String {
+	// Process the keys in sorted order. Keys can overlap once they are split
+	// into paths ("a.b" and "a"), in which case the outcome must not depend on
+	// the iteration order of the map.
+	keys := from.MapKeys()
+	names := make([]string, len(keys))
+	for i, k := range keys {
+		name := chaseValueInterfaces(k)
+		if name.Kind() != reflect.String {
 			return raiseKeyInvalidTypeMerge(cfg, from.Type())
 		}
+		names[i] = name.String()
+	}
+	sort.Sort(&sortedMapKeys{names: names, keys: keys})
 
-		err := normalizeSetField(cfg, opts, noTagOpts, k.String(), from.MapIndex(k))
+	for i, k := range keys {
+		err := normalizeSetField(cfg, opts, noTagOpts, names[i], from.MapIndex(k))
 		if err != nil {
 			return err
 		}
 	}
 	return nil
+}
+
+type sortedMapKeys struct {
+	names []string
+	keys  []reflect.Value
+}
+
+func (s *sortedMapKeys) Len() int           { return len(s.names) }
+func (s *sortedMapKeys) Less(i, j int) bool { return s.names[i] < s.names[j] }
+func (s *sortedMapKeys) Swap(i, j int) {
+	s.names[i], s.names[j] = s.names[j], s.names[i]
+	s.keys[i], s.keys[j] = s.keys[j], s.keys[i]
 }
 
 func normalizeStruct(opts *options, from reflect.Value) (*Config, Error) {
